@@ -225,6 +225,32 @@ func genAliasHistories(cw *caseWriter, prop string, r *rng, n int) {
 						errc = errClass(err)
 					}
 				case 15:
+					if r.chance(1, 2) {
+						// a slice or a map handed to Row.Import of a live row: values land in the columns in order (resp. by
+						// name); one that is refused ends the import there — the values before it stay, nothing lands in
+						// another column than its own
+						i := pickRow()
+						var x interface{}
+						if r.chance(1, 2) {
+							sl := []interface{}{}
+							for j := 1 + r.intn(5); j > 0; j-- {
+								v := pick(r, vals)()
+								extForValue(v, ext)
+								sl = append(sl, v)
+							}
+							x = sl
+						} else {
+							key := pick(r, keys)
+							v := pick(r, vals)()
+							extForValue(v, ext)
+							x = map[string]interface{}{key: v}
+						}
+						op = fmt.Sprintf("imp2 %d %s", i, dynStr(x))
+						if err := rows[i].Import(x); err != nil {
+							errc = errClass(err)
+						}
+						break
+					}
 					// one row handed to another row's Import (refused today; were it accepted, the two rows must not
 					// end up holding the same cells)
 					i, j := pickRow(), pickRow()
